@@ -246,8 +246,84 @@ export function genValues(rng, p, n) {
   for (const [, ty] of p[2]) for (let i = 0; i < n; i++) { const m = member(rng, p, ty, 2); vals.push(i % 3 === 2 ? mutate(rng, m) : i % 7 === 6 ? randomValue(rng, 2) : m); }
   return vals;
 }
+// ---------- C08: meaning-preserving rewrites on TsCore programs ----------
+const clone = (x) => (Array.isArray(x) ? x.map(clone) : x);
+function shuffle(rng, a) { const c = a.slice(); for (let i = c.length - 1; i > 0; i--) { const j = rng.below(i + 1); [c[i], c[j]] = [c[j], c[i]]; } return c; }
+function mapTy(t, f) { // bottom-up map over type nodes
+  if (t instanceof Atom || typeof t === "string") return f(t);
+  const h = head(t);
+  let r;
+  switch (h) {
+    case "array": case "arr2": case "paren": case "readonly": r = [t[0], mapTy(t[1], f)]; break;
+    case "tuple": r = [t[0], t[1].map((x) => mapTy(x, f)), isAtom(t[2], "none") ? t[2] : mapTy(t[2], f)]; break;
+    case "obj": r = [t[0], t[1].map(([k, o, ty]) => [k, o, mapTy(ty, f)]), isAtom(t[2], "none") ? t[2] : [mapTy(t[2][0], f), mapTy(t[2][1], f)]]; break;
+    case "union": case "inter": r = [t[0], ...t.slice(1).map((x) => mapTy(x, f))]; break;
+    case "ref": case "bi": r = [t[0], t[1], ...t.slice(2).map((x) => mapTy(x, f))]; break;
+    default: r = t;
+  }
+  return f(r);
+}
+function mapProg(p, f, intoExtends = false) {
+  // `extends` clauses only admit plain names: rewrites leave them alone (except renaming)
+  return [p[0], p[1].map((d) => (head(d) === "alias" ? [d[0], d[1], d[2], mapTy(d[3], f)] : [d[0], d[1], d[2], intoExtends ? d[3].map((e) => mapTy(e, f)) : d[3], d[4].map(([k, o, ty]) => [k, o, mapTy(ty, f)])])), p[2].map(([n, t]) => [n, mapTy(t, f)])];
+}
+const NAMING = new Set(["intro-alias", "inline-alias", "rename", "wrap-id", "iface-alias"]);
+function applyRewrite(rng, p, kind) {
+  switch (kind) {
+    case "perm-members": return mapProg(p, (t) => (head(t) === "union" || head(t) === "inter" ? [t[0], ...shuffle(rng, t.slice(1))] : t));
+    case "perm-props": { const q = mapProg(p, (t) => (head(t) === "obj" ? [t[0], shuffle(rng, t[1]), t[2]] : t)); return [q[0], q[1].map((d) => (head(d) === "iface" ? [d[0], d[1], d[2], d[3], shuffle(rng, d[4])] : d)), q[2]]; }
+    case "perm-decls": return [p[0], shuffle(rng, p[1]), p[2]];
+    case "parens": return mapProg(p, (t) => (!(t instanceof Atom) && head(t) !== "paren" && rng.chance(1, 4) ? [A("paren"), t] : t));
+    case "readonly": return mapProg(p, (t) => ((head(t) === "arr2" || head(t) === "tuple") && rng.chance(1, 2) ? [A("readonly"), t] : t));
+    case "regroup-union": return mapProg(p, (t) => (head(t) === "union" && t.length > 3 ? [t[0], [A("union"), t[1], t[2]], ...t.slice(3)] : t));
+    case "wrap-id": { // generic wrapper type Id<T> = T
+      const name = "Id" + rng.below(1000);
+      let used = false;
+      const q = mapProg(p, (t) => (!(t instanceof Atom) && ["obj", "array", "union", "tuple"].includes(head(t)) && rng.chance(1, 5) ? ((used = true), [A("ref"), name, t]) : t));
+      return used ? [q[0], [[A("alias"), name, ["X"], [A("ref"), "X"]], ...q[1]], q[2]] : p;
+    }
+    case "intro-alias": { // name a closed subterm of an export
+      const name = "Al" + rng.below(1000);
+      let body = null;
+      const exps = p[2].map(([n, t]) => [n, mapTy(t, (x) => { if (body === null && !(x instanceof Atom) && ["obj", "array", "union", "tuple", "lit"].includes(head(x)) && rng.chance(1, 3)) { body = x; return [A("ref"), name]; } return x; })]);
+      return body ? [p[0], [...p[1], [A("alias"), name, [], body]], exps] : p;
+    }
+    case "inline-alias": { // replace references to a non-generic, non-recursive alias by its body
+      const cands = p[1].filter((d) => head(d) === "alias" && d[2].length === 0 && !show(d[3]).includes(`(ref ${quote(d[1])}`));
+      if (!cands.length) return p;
+      const d = rng.pick(cands);
+      if (p[1].some((x) => head(x) === "iface" && x[3].some((e) => e[1] === d[1]))) return p; // `extends` needs a name
+      const q = mapProg(p, (t) => (head(t) === "ref" && t[1] === d[1] && t.length === 2 ? clone(d[3]) : t));
+      return q;
+    }
+    case "rename": {
+      if (!p[1].length) return p;
+      const d = rng.pick(p[1]);
+      const nn = rng.pick(["Zz", "Aa", "Mm"]) + rng.below(1000);
+      const q = mapProg(p, (t) => (head(t) === "ref" && t[1] === d[1] ? [t[0], nn, ...t.slice(2)] : t), true);
+      return [q[0], q[1].map((x) => (x[1] === d[1] ? [x[0], nn, ...x.slice(2)] : x)), q[2]];
+    }
+    case "iface-alias": return [p[0], p[1].map((d) => (head(d) === "iface" && d[3].length === 0 ? [A("alias"), d[1], d[2], [A("obj"), d[4], A("none")]] : head(d) === "alias" && head(d[3]) === "obj" && isAtom(d[3][2], "none") && rng.chance(1, 2) ? [A("iface"), d[1], d[2], [], d[3][1]] : d)), p[2]];
+  }
+  return p;
+}
+const REWRITES = ["perm-members", "perm-props", "perm-decls", "parens", "readonly", "regroup-union", "wrap-id", "intro-alias", "inline-alias", "rename", "iface-alias", "jsdoc"];
+function withJsdoc(src, rng) { return src.split("\n").map((l) => (/^(type|interface) /.test(l) && rng.chance(1, 2) ? "/** doc " + rng.below(100) + " */\n" + l : l)).join("\n"); }
+export function genRewrite(rng, params) {
+  const p = genProg(rng);
+  const nvals = Number(params[0] || 12);
+  const vals = genValues(rng, p, nvals);
+  let q = clone(p);
+  const script = [];
+  let jsdoc = false;
+  for (let i = 1 + rng.below(4); i > 0; i--) { const k = rng.pick(REWRITES); script.push(A(k)); if (k === "jsdoc") jsdoc = true; else q = applyRewrite(rng, q, k); }
+  const src2 = jsdoc ? withJsdoc(tsOfProg(q), rng) : tsOfProg(q);
+  return [A("rewrite"), A(String(counter++)), p, [["entry.ts", tsOfProg(p)]], vals.map(encVal), q, [["entry.ts", src2]], script];
+}
+
 let counter = 0;
 export function gen(rng, params, mode) {
+  if (mode === "prog-rewrite") return genRewrite(rng, params);
   const p = genProg(rng);
   const nvals = Number(params[0] || 12);
   const vals = genValues(rng, p, nvals);
@@ -267,7 +343,39 @@ export async function loadEmitted(build, code, stringFormats = [], numberFormats
 }
 export const asyncRunner = true;
 export function makeRunner(rt_, mode, build) {
+  async function evalOne(exports, valsSx, compiled) {
+    const h = head(compiled);
+    if (h !== "js") return { reply: [A(h)], fail: h === "diags" ? [] : [A("c04." + h)] };
+    let parsers;
+    try { parsers = (await loadEmitted(build, compiled[1])).buildParsers({ stringFormats: {}, numberFormats: {} }); } catch (e) { return { reply: [A("load-error"), String(e && e.message).slice(0, 200)], fail: [A("c04.load")] }; }
+    const vals = valsSx.map(decVal);
+    const out = [A("bits")], fail = [], h256 = {}, h32 = {};
+    for (const [name] of exports) {
+      const pr = parsers[name];
+      if (!pr) { fail.push(A("c04.missing-parser")); out.push([A(name), "missing"]); continue; }
+      let bits = "";
+      for (const v of vals) { try { bits += pr.validate(v) ? "1" : "0"; } catch (e) { bits += "T"; fail.push(A("c03.throw")); } }
+      out.push([A(name), bits]);
+      try { h256[name] = pr.hash256(); h32[name] = pr.hash(); } catch (e) { fail.push(A("c13.hash-throws")); }
+    }
+    return { reply: out, fail, h256, h32 };
+  }
   return async function run(req, compiled) {
+    if (head(req) === "rewrite") {
+      // compiled = (pair r1 r2)
+      const a = await evalOne(req[2][2], req[4], compiled[1]);
+      const b = await evalOne(req[5][2], req[4], compiled[2]);
+      const fail = [...a.fail, ...b.fail];
+      if (head(a.reply) === "bits" && head(b.reply) === "bits") {
+        if (show(a.reply) !== show(b.reply)) fail.push(A("c08.validate"));
+        for (const [name] of req[2][2]) {
+          if (a.h256[name] !== b.h256[name]) fail.push(A("c08.hash256"));
+          // C13: the 32-bit hash may depend on names, not on property/member order, alias boundaries or comments
+          if (a.h32[name] !== b.h32[name] && !req[7].some((k) => k.s === "rename" || k.s === "iface-alias")) fail.push(A("c13.hash32"));
+        }
+      } else if (head(a.reply) !== head(b.reply)) fail.push(A("c08.outcome"));
+      return [[A("pair"), a.reply, b.reply], fail.length ? [A("oracle"), A("fail"), ...new Map(fail.map((x) => [x.s, x])).values()] : [A("oracle"), A("ok")]];
+    }
     const h = head(compiled);
     if (h !== "js") return [[A(h)], [A("oracle"), A(h === "diags" ? "ok" : "fail"), ...(h === "diags" ? [] : [A("c04." + h)])]];
     let mod;
